@@ -454,8 +454,8 @@ def r10_log_order(ctx: Ctx, rid: str = "C09.R10") -> None:
         return []
 
     for f in sorted(ctx.prog.functions.values(), key=lambda x: x.qname):
-        if isinstance(f.node, ast.Lambda) or f.parent is not None and ctx.prog.is_transparent(f):
-            continue
+        if isinstance(f.node, ast.Lambda) or (f.parent is not None and ctx.prog.is_transparent(f) and ctx.eff.call_sites.get(f.qname)):
+            continue  # (a new closure that is only handed on as a callback is analysed nowhere else: it is judged here)
         g = ctx.cfg(f)
         for n in g.nodes:
             if n.ast is None or n.id not in g.reachable() or n.kind not in ("stmt", "call", "return"):
